@@ -276,6 +276,10 @@ package node
 //@   assert@call TasksToMessages[C03.reconstruct.expansion] msgs == loc(signingTasks)
 //@   assert@call recoverFullSign[C03.reconstruct.payload] msg == loc(messages)[loc(messageID)].Payload && sigShares == loc(messagePartialSignatures)
 
+//@ func (github.com/lidofinance/dc4bc/client/services/operation.OperationService).GetOperations
+//@   assumed
+//@   pure
+
 // ---- API entry points around executeOperation (C15)
 // the result handed back over the local API is answered field by field as submitted
 //@ func (*BaseNodeService).ProcessOperation
